@@ -45,6 +45,8 @@ def cases(tier, seed):
         for op in OPS:
             for g0 in range(1, 101, 10):
                 yield {"cfg": cfg, "dseed": int(seed), "runs": [[op, g, 0, 97, 40.0 if op == "dedisperse" else 0.0, 3] for g in range(g0, g0 + 10)]}
+        # delays longer than half the range (required regime: produced here, not left to the random part)
+        yield {"cfg": cfg, "dseed": int(seed), "runs": [["dedisperse", g, 0, 97, 150.0, 3] for g in (1, 5, 50, 96, 97, 200)]}
     rng = np.random.default_rng([seed, 606])
     nrand = 600 if tier == "quick" else 20000
     for k in range(nrand // 6):
